@@ -6,6 +6,7 @@ import (
 	"bytes"
 	"fmt"
 	"io"
+	"os"
 	"sync"
 	"sync/atomic"
 	"testing"
@@ -56,12 +57,21 @@ func decoy() *vlib.Target {
 	return decoyTgt
 }
 
+// listenersFor: besides the listener in use the client has one for a channel the server does not offer ("nochan"): a
+// request for it is refused, which must stay that request's own business.
+func listenersFor(stdioListener bool) []vlib.ListenerSpec {
+	if stdioListener {
+		return []vlib.ListenerSpec{{Channel: "data", Stdio: true}}
+	}
+	return []vlib.ListenerSpec{{Channel: "data"}, {Channel: "nochan"}}
+}
+
 func pairConfig(c config, tgt *vlib.Target, stdioListener bool) vlib.PairConfig {
 	pc := vlib.PairConfig{
 		Carrier:        c.carrier,
 		ClientInsecure: true, // verification is C05's subject
 		Channels:       []vlib.ChannelSpec{{Name: "aaa", Target: decoy().URL()}, {Name: "data", Target: tgt.URL()}, {Name: "zzz", Target: decoy().URL()}},
-		Listeners:      []vlib.ListenerSpec{{Channel: "data", Stdio: stdioListener}},
+		Listeners:      listenersFor(stdioListener),
 	}
 	pki := vlib.GetPKI()
 	switch c.sec {
@@ -230,9 +240,15 @@ type caseDesc struct {
 	Key           uint64 `json:"key"`
 	Duplex        bool   `json:"duplex"`
 	GapUs         int    `json:"gap_us"`
+	// PipeDebug: environment switch SOCKETACE_PIPE_DEBUG=1 (copy loops that also log the data)
+	PipeDebug bool `json:"SOCKETACE_PIPE_DEBUG,omitempty"`
 }
 
 func runCase(d caseDesc) (problem string, inconclusive bool) {
+	if d.PipeDebug {
+		os.Setenv("SOCKETACE_PIPE_DEBUG", "1")
+		defer os.Unsetenv("SOCKETACE_PIPE_DEBUG")
+	}
 	var c config
 	for _, x := range configs {
 		if x.name == d.Config {
@@ -304,6 +320,7 @@ func TestFidelity(t *testing.T) {
 			d.GapUs = rapid.IntRange(50, 3000).Draw(rt, "gapUs")
 		}
 		_ = thorough
+		d.PipeDebug = c.carrier != vlib.CarDNS && rapid.IntRange(0, 7).Draw(rt, "pipeDebug") == 0
 		vlib.Tap.Reset()
 		problem, inconclusive := runCase(d)
 		if inconclusive {
@@ -381,6 +398,8 @@ func TestDNSEveryWriteLength(t *testing.T) {
 type concDesc struct {
 	Config string  `json:"config"`
 	Conns  []cspec `json:"connections"`
+	// RefusedMeanwhile: a request for a channel the server does not offer is made (and refused) while the transfers run
+	RefusedMeanwhile bool `json:"refused_request_meanwhile,omitempty"`
 }
 
 type cspec struct {
@@ -506,6 +525,16 @@ func runConcurrent(d concDesc) (problem string, inconclusive bool) {
 		}(i, cs)
 	}
 	close(start)
+	if d.RefusedMeanwhile {
+		// somebody asks for a channel the server does not offer while the transfers run
+		time.Sleep(time.Duration(2+len(d.Conns)) * time.Millisecond)
+		if c, err := p.Dial("nochan"); err == nil {
+			c.SetDeadline(time.Now().Add(10 * time.Second))
+			c.Write([]byte("anybody?"))
+			c.Read(make([]byte, 8))
+			c.Close()
+		}
+	}
 	wg.Wait()
 	mu.Lock()
 	defer mu.Unlock()
@@ -546,6 +575,7 @@ func TestConcurrentTransfers(t *testing.T) {
 			cs.UpParts = drawParts(rt, "upParts", cs.LenUp+16)
 			d.Conns = append(d.Conns, cs)
 		}
+		d.RefusedMeanwhile = rapid.IntRange(0, 2).Draw(rt, "refusedMeanwhile") == 0
 		vlib.Tap.Reset()
 		problem, inconclusive := runConcurrent(d)
 		if inconclusive {
